@@ -55,7 +55,7 @@ theorem LInv.keyEq {s s' : State} {k : Nat} (h : LInv s k) (e : KeyEq s s') : LI
     exact ⟨p, hp, by rw [e.status]; exact hq⟩
 
 theorem Inv.keyEq {s s' : State} (h : Inv s) (e : KeyEq s s') : Inv s' := by
-  obtain ⟨h1, h2, h3, h4, h5, h6, h7⟩ := h
+  obtain ⟨h1, h2, h3, h4, h5, h6, h7, h8⟩ := h
   constructor
   · intro k; exact (h1 k).keyEq e
   · intro i; rw [e.cur, e.status]; exact h2 i
@@ -64,6 +64,7 @@ theorem Inv.keyEq {s s' : State} (h : Inv s) (e : KeyEq s s') : Inv s' := by
   · intro i; rw [e.holding, e.prio, e.owns]; exact h5 i
   · intro i; rw [e.owns]; exact h6 i
   · intro i k; rw [e.waitingOn, e.prio, e.pos]; exact h7 i k
+  · intro i k; rw [e.pos, e.owns]; exact h8 i k
 
 /-- changing only `rkey` of a task -/
 theorem keyEq_setRkey (s : State) (o : Nat) (r : Option Rat) :
@@ -79,6 +80,12 @@ theorem keyEq_setMustCancel (s : State) (o : Nat) (r : Bool) :
 theorem keyEq_rekey (s : State) (k i : Nat) (p : Rat) :
     KeyEq s (s.setLock k { s.locks k with waiters := rekey (s.locks k).waiters i p }) := by
   constructor <;> intros <;> simp [State.wl] <;> split <;> simp_all
+
+theorem keyEq_clearRkeys (s : State) (js : List Nat) : KeyEq s (s.clearRkeys js) := by
+  unfold State.clearRkeys
+  induction js generalizing s with
+  | nil => exact KeyEq.refl s
+  | cons j js ih => exact (keyEq_setRkey s j none).trans (ih _)
 
 mutual
 theorem propT_keyEq (s : State) : ∀ (f o : Nat), KeyEq s (propT s f o)
